@@ -573,8 +573,26 @@ def post_c05(ctx, parsed, res):
             if s.state == "CANCELLED" and not on_untaken_branch(ctx, s):
                 report("feasible_task_cancelled",
                             f"{s.uname} was cancelled under {pol['name']} without enforcement/drop",
-                            {"policy": pol["name"]})
+                            {"policy": pol["name"], "graph_has_arm_only_sink": _has_arm_only_sink(ctx, s.base)})
                 break
+
+
+def _has_arm_only_sink(ctx, base):
+    """does the graph have a sink that hangs off one arm of a conditional (a side output)?  When another arm is
+    taken that sink is cancelled, and the simulator then regards the whole graph as cancelled"""
+    nodes = ctx.nodes.get(base, {})
+    for cn, nd in nodes.items():
+        if not nd.get("conditional"):
+            continue
+        term = matching_terminal(ctx, base, cn)
+        for k in nd["children"]:
+            for n in branch_nodes(ctx, base, k, term):
+                if n != term and not nodes[n]["children"]:
+                    return True
+                for c in nodes[n]["children"]:
+                    if c != term and not nodes[c]["children"] and not nodes[c].get("terminal"):
+                        return True
+    return False
 
 
 def on_untaken_branch(ctx, s):
